@@ -109,7 +109,7 @@ where
     Ok(())
 }
 
-fn int_case<const N: usize>(t: &mut Tape, c: &mut Case) -> CaseResult {
+pub(crate) fn int_case<const N: usize>(t: &mut Tape, c: &mut Case) -> CaseResult {
     let al = operand(t, N);
     c.limbs("a", &al);
     c.nontrivial(special(&al));
